@@ -152,6 +152,27 @@ class Check(core.CheckBase):
         self.stats['shuffles'] += 1
         found = []
         reference = None
+        # history: hash / set membership of the SAME objects before and after they took part in ordering
+        objects = [self.make(name) for name in subset]
+        hashes_before = [hash(obj) for obj in objects]
+        holder = set(objects)
+        sorted(objects)
+        max(objects)
+        min(objects)
+        if [hash(obj) for obj in objects] != hashes_before:
+            found.append(self.violation('hash-unstable|after-ordering',
+                                        'hash() of a version changes once it has been compared/sorted', case))
+        elif not all(obj in holder for obj in objects):
+            found.append(self.violation('set-membership|after-ordering',
+                                        'a version is no longer found in the set it was put into after sorting', case))
+        else:
+            for name, obj in zip(subset, objects):
+                fresh = self.make(name)
+                if hash(fresh) != hash(obj) or fresh not in holder or len({fresh, obj}) != 1:
+                    found.append(self.violation('hash|used-vs-fresh',
+                                                'an already compared %s and a fresh equal one hash differently' % name, case))
+                    break
+        self.stats['hash_history_checks'] += 1
         for _ in range(4):
             rng.shuffle(subset)
             versions = [self.make(name) for name in subset]
